@@ -43,8 +43,8 @@ for p in props:
         "technique": "Lean 4 proof over an executable model + model regenerated from source by a translator with equality/refinement re-proved on every run + differential correspondence check (Go harness -> compiled Lean driver) + specification monitors",
     })
 m = {"version": 1, "setup_cmd": "./check --setup",
-     "hooks": {"guard": "verif", "enable": "go build -tags verif (no hook is needed: every property is observable through the public API)",
-               "baseline_off_cmd": "cd /repo && go test -vet=off -count=1 -json ./...", "source_commits": [], "add_only": True},
+     "hooks": {"guard": "verif", "enable": "go build -tags verif (one hook: verif_hooks.go, func VerifListStorage — data pointer, length and capacity of a list's element slice, read by the slices stratum of C05/C09; every property itself is observable through the public API)",
+               "baseline_off_cmd": "cd /repo && go test -vet=off -count=1 -json ./...", "source_commits": ["5a615e4"], "add_only": True},
      "engines": [{"name": "lean-model+correspondence", "path": "/verif/lean + /verif/harness + /verif/check",
                   "serves_properties": [c["property_id"] for c in checks],
                   "kind_free_text": "Lean 4.33 project (model, specs, theorems, compiled driver) + Go harness driving the real library in-process + python orchestrator"}],
